@@ -220,3 +220,30 @@ def selftest(prop, spec, k=60, seed=7):
     print("[selftest %s] %d runs, %d digests altered, %d rejected by TLC, %d missed, %d unexpected; machine level: equal regions equal, different regions different: %s"
           % (prop, len(lines), len(picks), len(rej & want), len(missed), len(extra), ml_ok))
     return 0 if not missed and not extra and ml_ok else 1
+
+
+def replay(prop, path, spec):
+    """./check C01 --replay <file>: run the two secrets of the recorded divergence again on the current tree, at the
+    level it was found (machine level for sweep findings; IR level + machine-level confirmation otherwise)"""
+    r = json.load(open(path))
+    e = r["event"]
+    nsec = 28 if r.get("tier", "quick") == "quick" else 120
+    vcheck.run(["cargo", "build", "--offline", "--release"], cwd=LEAK, env=dict(os.environ, CARGO_NET_OFFLINE="true"), timeout=3000)
+    markers = lackey.build_plain()
+    m = lackey.compare(e["cls"], 0, e["si"], r["seed"], nsec, markers)
+    ir = None
+    if e.get("level") != "machine":
+        wdir = os.path.join(vcheck.WORK, prop + "_replay")
+        shutil.rmtree(wdir, ignore_errors=True)
+        os.makedirs(wdir)
+        trace = os.path.join(wdir, "trace.ndjson")
+        vcheck.run([BIN, "--out", trace, "--seed", str(r["seed"]), "--secrets", str(nsec), "--only", e["form"]], timeout=3000)
+        ir = any(json.loads(l).get("cls") == e["cls"] and json.loads(l).get("si") == e["si"] and "dv" in json.loads(l) for l in open(trace))
+        print("REPLAY: IR-level traces of secrets 0 and %d of %s %s" % (e["si"], e["cls"], "differ" if ir else "are equal"))
+    print("REPLAY: machine-level traces of secrets 0 and %d of %s %s (%d vs %d instructions%s)"
+          % (e["si"], e["cls"], "differ" if m["differs"] else "are equal", m["n_instr"][0], m["n_instr"][1], ", first differing entry %s" % (m["first"][:3],) if m["first"] else ""))
+    if m["differs"] and ir is not False:
+        print("VIOLATION property=%s replay=%s" % (prop, path))
+        return 1
+    print("REPLAY: not reproduced on the current tree")
+    return 0
